@@ -151,6 +151,94 @@ theorem Refines.run_init {content : Bytes → Bytes} {I : Impl} (R : Refines con
     I.run I.init ops = run [] ops := by
   rw [R.run_eq I.init R.init_inv ops hops, R.init_abs]
 
+/-! ## refinement restricted to histories whose received keys satisfy a predicate `K`
+
+Disk-backed leaves derive file names and record headers from the ref text, so they refine the map
+only for keys that really are ref texts (`K`).  `RefinesK` is `Refines` with that hypothesis on
+received keys and the matching invariant "every held key satisfies `K`"; combinators preserve it, and
+`Refines` is the special case `K = fun _ => True`. -/
+
+/-- the received key of an op, if any, satisfies `K` -/
+def Op.KOK (K : Bytes → Prop) : Op → Prop
+  | .recv k _ => K k
+  | _ => True
+
+structure RefinesK (content : Bytes → Bytes) (K : Bytes → Prop) (I : Impl) where
+  abs : I.σ → SMap Bytes
+  Inv : I.σ → Prop
+  init_inv : Inv I.init
+  init_abs : abs I.init = []
+  good : ∀ s, Inv s → Good content (abs s)
+  keys : ∀ s, Inv s → ∀ k v, get (abs s) k = some v → K k
+  step_ok : ∀ s op, Inv s → op.WK content → op.KOK K →
+    (I.step s op).2 = out (abs s) op ∧ abs (I.step s op).1 = next (abs s) op ∧ Inv (I.step s op).1
+
+theorem RefinesK.run_eq {content : Bytes → Bytes} {K : Bytes → Prop} {I : Impl} (R : RefinesK content K I)
+    (s : I.σ) (h : R.Inv s) (ops : List Op) (hops : ∀ op ∈ ops, op.WK content)
+    (hk : ∀ op ∈ ops, op.KOK K) : I.run s ops = run (R.abs s) ops := by
+  induction ops generalizing s with
+  | nil => rfl
+  | cons op ops ih =>
+    obtain ⟨ho, ha, hi⟩ := R.step_ok s op h (hops op (by simp)) (hk op (by simp))
+    simp only [Impl.run, run, ho]
+    rw [ih _ hi (fun o ho' => hops o (by simp [ho'])) (fun o ho' => hk o (by simp [ho'])), ha]
+
+theorem RefinesK.run_init {content : Bytes → Bytes} {K : Bytes → Prop} {I : Impl} (R : RefinesK content K I)
+    (ops : List Op) (hops : ∀ op ∈ ops, op.WK content) (hk : ∀ op ∈ ops, op.KOK K) :
+    I.run I.init ops = run [] ops := by
+  rw [R.run_eq I.init R.init_inv ops hops hk, R.init_abs]
+
+/-- the keys of `next m op` are those of `m` plus the received key -/
+theorem get_next_key {m : SMap Bytes} (hm : KAsc m) {op : Op} {k : Bytes} {v : Bytes}
+    (h : get (next m op) k = some v) : (∃ w, get m k = some w) ∨ (∃ w, op = .recv k w) := by
+  cases op with
+  | recv k' v' =>
+    simp only [next] at h
+    split at h
+    · exact Or.inl ⟨v, h⟩
+    · rw [get_ins] at h
+      by_cases hk : k = k'
+      · subst hk; exact Or.inr ⟨v', rfl⟩
+      · simp only [hk, if_false] at h; exact Or.inl ⟨v, h⟩
+  | rm k' =>
+    simp only [next] at h
+    rw [get_del k' hm] at h
+    by_cases hk : k = k'
+    · simp [hk] at h
+    · simp only [hk, if_false] at h; exact Or.inl ⟨v, h⟩
+  | fetch _ => exact Or.inl ⟨v, h⟩
+  | stat _ => exact Or.inl ⟨v, h⟩
+  | enum _ _ => exact Or.inl ⟨v, h⟩
+
+/-- an unrestricted refinement is a `K`-refinement for every `K` -/
+def Refines.toK {content : Bytes → Bytes} {I : Impl} (R : Refines content I) (K : Bytes → Prop) :
+    RefinesK content K I where
+  abs := R.abs
+  Inv := fun s => R.Inv s ∧ ∀ k v, get (R.abs s) k = some v → K k
+  init_inv := ⟨R.init_inv, by intro k v h; rw [R.init_abs] at h; simp [SMap.get] at h⟩
+  init_abs := R.init_abs
+  good := fun s h => R.good s h.1
+  keys := fun s h => h.2
+  step_ok := by
+    intro s op ⟨h, hk⟩ hop hK
+    obtain ⟨ho, ha, hi⟩ := R.step_ok s op h hop
+    refine ⟨ho, ha, hi, ?_⟩
+    intro k v hg
+    rw [ha] at hg
+    rcases get_next_key (R.good s h).1 hg with ⟨w, hw⟩ | ⟨w, hw⟩
+    · exact hk k w hw
+    · subst hw; exact hK
+
+/-- and back, for the trivial predicate -/
+def RefinesK.toRefines {content : Bytes → Bytes} {I : Impl} (R : RefinesK content (fun _ => True) I) :
+    Refines content I where
+  abs := R.abs
+  Inv := R.Inv
+  init_inv := R.init_inv
+  init_abs := R.init_abs
+  good := R.good
+  step_ok := fun s op h hop => R.step_ok s op h hop (by cases op <;> trivial)
+
 /-- a weaker contract, for stores that may forget blobs on their own (an evicting cache): answers are
 consistent with the store's own contents, and the contents only ever shrink relative to what a
 faithful map would hold -/
